@@ -49,12 +49,17 @@ DANGLING = {
     "bond-rev": ("bonds", (3, 2), ("1", "0.41", "510")),
     "angle-rev": ("angles", (5, 3, 1), ("2", "131", "41")),
     "angle-next-first": ("angles", (3, 1, 2), ("2", "132", "42")),
+    # several terms on the same atoms, with and without another interaction listed between them
+    "dih9-a": ("dihedrals", (1, 3, 5, 7), ("9", "0", "1.5", "1")),
+    "dih9-b": ("dihedrals", (1, 3, 5, 7), ("9", "180", "2.5", "2")),
+    "dih9-side": ("dihedrals", (2, 3, 5, 7), ("9", "30", "0.5", "1")),
 }
+DANGLING_ORDERED = [["dih9-a", "dih9-b", "dih9-side"], ["dih9-a", "dih9-side", "dih9-b"], ["dih9-side", "dih9-b", "dih9-a"], ["dih9-b", "dih9-side", "dih9-a", "bond"]]
 
 
 def _dangling_cases(tier):
-    names = list(DANGLING)
-    sets = [[n] for n in names] + [list(c) for c in _it.combinations(names, 2)]
+    names = [n for n in DANGLING if not n.startswith("dih9")]
+    sets = [[n] for n in names] + [list(c) for c in _it.combinations(names, 2)] + DANGLING_ORDERED
     for ds in sets:
         yield dict(kind="dangling-linear", dangling=ds, tier=tier)
     for ds in [[n] for n in ("bond", "sidebond", "angle", "dihedral", "bond-rev", "angle-rev", "angle-next-first")] + [["bond", "angle"], ["bond", "dihedral"]]:
